@@ -323,10 +323,32 @@ class Translator:
     def load_reads(self):
         f = self.func("trainer", "load_or_init_model", cls="TrainingRun")
         first = f.body[0]
-        ok = (isinstance(first, ast.If) and _src(first.test) == "self.config.run_dir" and not first.orelse
+        ok = (isinstance(first, ast.If) and not first.orelse
               and len(first.body) == 2 and isinstance(first.body[0], ast.Assign) and isinstance(first.body[1], ast.If))
         if not ok:
             _fail(first, "load_or_init_model does not start with the run_dir/latest probe")
+        # the guard of the resume branch, atom by atom (which configuration reaches run_dir/latest at all)
+        atoms = first.test.values if isinstance(first.test, ast.BoolOp) and isinstance(first.test.op, ast.And) else [first.test]
+        conds = []
+        for a in atoms:
+            c = {"self.config.run_dir": "CRunDir", "self.config.load_model": "CLoadModel",
+                 "not self.config.load_model": "CNotLoadModel", "not self.config.run_dir": "CNotRunDir"}.get(_src(a))
+            if c is None:
+                _fail(a, "unknown condition on the resume branch")
+            conds.append(c)
+        self.branches = [(conds + ["CExistsLatest"], "ALoadState")]
+        rest = f.body[1:]
+        ok = (len(rest) == 1 and isinstance(rest[0], ast.If) and _src(rest[0].test) == "self.config.load_model"
+              and len(rest[0].orelse) == 1 and _src(rest[0].orelse[0]) == "self.state.model.init_weights()"
+              and rest[0].body and _src(rest[0].body[0]) == "loading.load_snapshot(self.state.model, self.config.load_model)")
+        if not ok:
+            _fail(rest[0] if rest else f, "unsupported fall-back branches (load_model / init_weights)")
+        for st in rest[0].body[1:]:
+            for n in ast.walk(st):
+                if isinstance(n, ast.Call) and _src(n.func) not in ("os.path.join", "os.path.exists", "torch.load",
+                                                                    "self.state.opt.load_state_dict"):
+                    _fail(n, "unsupported call in the load_model branch")
+        self.branches += [(["CLoadModel"], "ALoadInitial"), ([], "AInitWeights")]
         env = {}
         self.stmt("trainer", first.body[0], env)
         probe = first.body[1]
@@ -444,7 +466,10 @@ Inductive stmt :=
 | SUnlink (p : pexp)                          (* os.unlink(p) *)
 | SUnlinkQuiet (p : pexp)                     (* try: os.unlink(p) except FileNotFoundError: pass *)
 | SSymlinkBase (target link : pexp)           (* os.symlink(os.path.basename(target), link) *)
-| SReplace (a b : pexp).                      (* os.replace(a, b) *)'''
+| SReplace (a b : pexp).                      (* os.replace(a, b) *)
+(* load_or_init_model: the first branch whose conditions all hold is taken *)
+Inductive rcond := CRunDir | CNotRunDir | CLoadModel | CNotLoadModel | CExistsLatest.
+Inductive ract := ALoadState | ALoadInitial | AInitWeights.'''
 
 
 def translate(repo=None):
@@ -465,7 +490,9 @@ def translate(repo=None):
         "Definition save_prog : list stmt :=\n  [ " + ";\n    ".join(_stmt_coq(s) for s in prog) + " ].\n\n"
         "Definition load_reads : list (string * comp) :=\n  [ "
         + "; ".join(f'("{fn}", {c})' for fn, c in reads) + " ].\n\n"
-        "Definition resume_probe : pexp := PLatest.\n"
+        "Definition resume_probe : pexp := PLatest.\n\n"
+        "Definition resume_branches : list (list rcond * ract) :=\n  [ "
+        + "; ".join(f"([{'; '.join(cs)}], {a})" for cs, a in t.branches) + " ].\n"
     )
     return text, prog, reads
 
